@@ -127,8 +127,10 @@ def gen_lens(ch, feats, nsurf=None, harsh=False, max_surf=12):
             if ch.chance(0.3):
                 op['max_iter'] = ch.pick([20, 50, 100], tag='max_iter')
         # --- medium behind
-        is_mirror = (mirrors_left > 0 and not in_glass and not plane
-                     and kind == 'standard' and ch.chance(0.45))
+        # front-surface mirrors and (less often) mirrors met inside glass
+        is_mirror = (mirrors_left > 0 and not plane and kind == 'standard'
+                     and not last
+                     and ch.chance(0.2 if in_glass else 0.45))
         if is_mirror:
             op['material'] = ['mirror']
             mirrors_left -= 1
